@@ -309,6 +309,21 @@ def realList (l : List CRat) : List Rat := l.map (·.re)
 def matList {α : Type} {m n : Nat} (A : Mat α m n) : List α :=
   A.toList.flatMap fun r => r.toList
 
+/-- `to_vec_from_density_matrix_with_sparsity` / `to_vec_from_matrix_with_sparsity` as executed:
+the complex coefficients `np.vdot(B_a, ρ)` go through `truncate_hs` (guard + `.real` + fluctuation cut) -/
+def vecOfDensity {d n : Nat} (eps : Rat) (B : Basis CRat d n) (rho : Mat CRat d d) : Except Err (List Rat) :=
+  truncList eps (vecOfDensityRaw B rho).toList
+
+/-- `to_hs_from_choi_with_sparsity` as executed (through `truncate_hs`) -/
+def hsOfChoiSparse {d : Nat} (eps : Rat) (B : Basis CRat d (d * d)) (choi : Mat CRat (d * d) (d * d)) :
+    Except Err (List Rat) :=
+  truncList eps (matList (hsOfChoiSparseRaw B choi))
+
+/-- `to_hs_from_choi_with_dict` as executed (through `truncate_hs`) -/
+def hsOfChoiDict {d : Nat} (eps : Rat) (B : Basis CRat d (d * d)) (choi : Mat CRat (d * d) (d * d)) :
+    Except Err (List Rat) :=
+  truncList eps (matList (hsOfChoiDictRaw B choi))
+
 /-- `to_var_from_choi` as executed: `truncate_hs` runs on the whole HS matrix (row 0 included) inside
 `to_hs_from_choi_with_sparsity`; then `convert_hs_to_var` deletes row 0 (`onEq`) and flattens.
 (`toVarFromChoiEqRaw` / `toVarFromChoiFreeRaw` are the same functions without the truncation.) -/
@@ -364,6 +379,8 @@ structure EigPair (d : Nat) where
   val : Rat
   sqrtVal : Rat
   vec : Vec CRat (d * d)
+  /-- `np.abs(np.sqrt(val) * vec)`: the moduli of the entries of the scaled operator (used by the phase convention) -/
+  absScaled : Vec Rat (d * d)
 
 /-- `np.isclose(x, 0, atol=atol)` (rtol·|0| = 0) -/
 def closeZero (x atol : Rat) : Bool := rabs x ≤ atol
@@ -397,6 +414,34 @@ def krausRaw {d : Nat} (B : Basis CRat d (d * d)) (hs : Mat CRat (d * d) (d * d)
   else
     let kept := eigs.filter fun e => !closeZero e.val atolSettings
     (sortDesc kept).map fun e => (unflat e.vec : Mat CRat d d).smul (CRat.ofRat e.sqrtVal)
+
+/-- numpy's `value < 0` for a complex scalar: lexicographic order (real part first) -/
+def cLtZero (z : CRat) : Bool := decide (z.re < 0) || (decide (z.re = 0) && decide (z.im < 0))
+
+/-- `1 / e` for a complex number -/
+def cInv (e : CRat) : CRat := ⟨e.re / (e.re * e.re + e.im * e.im), -e.im / (e.re * e.re + e.im * e.im)⟩
+
+/-- the phase factor of step 3 of `to_kraus_matrices_from_hs` for one operator: the first non-zero entry `value`
+of `k.flatten()`; if `value < 0` (numpy's complex order) the factor is `1 / (value / abs(value))`, else 1
+(also 1 when every entry is zero). `absFlat` = numpy's `abs` of the entries. -/
+def phaseFactor {d : Nat} (k : Mat CRat d d) (absFlat : Vec Rat (d * d)) : CRat :=
+  match (List.finRange (d * d)).find? (fun x => (flat k).get x != 0) with
+  | none => 1
+  | some x =>
+    let value := (flat k).get x
+    if cLtZero value then cInv (value * CRat.ofRat (1 / absFlat.get x)) else 1
+
+/-- step 3: `_k = (1 / e_i_theta) * k` -/
+def phaseFix {d : Nat} (k : Mat CRat d d) (absFlat : Vec Rat (d * d)) : Mat CRat d d :=
+  k.smul (phaseFactor k absFlat)
+
+/-- `to_kraus_matrices_from_hs` completely: verdict, zero filter, stable descending sort, scaling, phase convention -/
+def krausFull {d : Nat} (B : Basis CRat d (d * d)) (hs : Mat CRat (d * d) (d * d))
+    (eigs : List (EigPair d)) (atol atolSettings : Rat) : List (Mat CRat d d) :=
+  if !isCp (choiSparse B hs) eigs atol then []
+  else
+    let kept := eigs.filter fun e => !closeZero e.val atolSettings
+    (sortDesc kept).map fun e => phaseFix ((unflat e.vec : Mat CRat d d).smul (CRat.ofRat e.sqrtVal)) e.absScaled
 
 /-! ## driver -/
 
@@ -441,13 +486,15 @@ def showEM {m n : Nat} (r : Except Err (Mat CRat m n)) : String :=
   | .error e => "err " ++ e.toString
   | .ok A => showM A
 
-def parseEigs? (d : Nat) (vals sqrts vecs : String) : Option (List (EigPair d)) := do
+def parseEigs? (d : Nat) (vals sqrts vecs abss : String) : Option (List (EigPair d)) := do
   let vals ← parseList? parseRat? vals
   let sqrts ← parseList? parseRat? sqrts
   let vecs ← parseCList? vecs
-  if vals.length ≠ sqrts.length ∨ vecs.length ≠ vals.length * (d * d) then none
+  let abss ← parseList? parseRat? abss
+  if vals.length ≠ sqrts.length ∨ vecs.length ≠ vals.length * (d * d) ∨ abss.length ≠ vals.length * (d * d) then none
   let vs ← (chunks (d * d) vals.length vecs).mapM (toVec? (d * d))
-  some ((vals.zip (sqrts.zip vs)).map fun t => ⟨t.1, t.2.1, t.2.2⟩)
+  let as ← (chunks (d * d) vals.length abss).mapM (toVec? (d * d))
+  some ((vals.zip (sqrts.zip (vs.zip as))).map fun t => ⟨t.1, t.2.1, t.2.2.1, t.2.2.2⟩)
 
 /-- the parameter checks of `convert_hs` in the order of the code -/
 def convertHsChecks (rows cols fromDim fromLen toDim toLen : Nat) : Except Err Unit :=
@@ -487,7 +534,7 @@ def handle (args : List String) : Option String :=
       let B ← toBasis? d n (← parseCList? basis)
       let rho ← toMat? d d (← parseCList? rho)
       let eps ← parseRat? eps
-      some (showR (truncList eps (vecOfDensityRaw B rho).toList))
+      some (showR (vecOfDensity eps B rho))
   | ["povmMatrix", d, n, basis, m, vecs, idx] => do
       let d ← parseNat? d; let n ← parseNat? n; let m ← parseNat? m; let idx ← parseNat? idx
       let B ← toBasis? d n (← parseCList? basis)
@@ -564,13 +611,13 @@ def handle (args : List String) : Option String :=
       let B ← toBasis? d (d * d) (← parseCList? basis)
       let c ← toMat? (d * d) (d * d) (← parseCList? choi)
       let eps ← parseRat? eps
-      some (showR (truncList eps (matList (hsOfChoiDictRaw B c))))
+      some (showR (hsOfChoiDict eps B c))
   | ["hsOfChoiSparse", d, basis, choi, eps] => do
       let d ← parseNat? d
       let B ← toBasis? d (d * d) (← parseCList? basis)
       let c ← toMat? (d * d) (d * d) (← parseCList? choi)
       let eps ← parseRat? eps
-      some (showR (truncList eps (matList (hsOfChoiSparseRaw B c))))
+      some (showR (hsOfChoiSparse eps B c))
   | ["convertHs", rows, cols, hs, d, n, fromB, toDim, toLen, toB] => do
       let rows ← parseNat? rows; let cols ← parseNat? cols
       let d ← parseNat? d; let n ← parseNat? n
@@ -623,14 +670,15 @@ def handle (args : List String) : Option String :=
       if onEq = "1" then some (showR (toVarFromChoi eps B c true))
       else if onEq = "0" then some (showR (toVarFromChoi eps B c false))
       else none
-  | ["kraus", d, basis, hs, vals, sqrts, vecs, atol, atolSettings] => do
+  | ["kraus", d, basis, hs, vals, sqrts, vecs, abss, atol, atolSettings] => do
       let d ← parseNat? d
       let B ← toBasis? d (d * d) (← parseCList? basis)
       let hs ← toMat? (d * d) (d * d) (← parseCList? hs)
-      let eigs ← parseEigs? d vals sqrts vecs
+      let eigs ← parseEigs? d vals sqrts vecs abss
       let atol ← parseRat? atol; let atolS ← parseRat? atolSettings
-      let ks := krausRaw B hs eigs atol atolS
-      some (s!"ok {ks.length} " ++ showCList (matList (krausTensorSum ks)))
+      let ks := krausFull B hs eigs atol atolS
+      -- the operators themselves (phase convention included), then the gauge invariant of the list before the phase step
+      some (s!"ok {ks.length} " ++ showCList (ks.flatMap matList ++ matList (krausTensorSum (krausRaw B hs eigs atol atolS))))
   | _ => none
 
 end QM.C02
